@@ -7,6 +7,11 @@
 size_t verif_ring_capacity(void);
 #define video_sink_init(a, b, c, d) video_sink_init(a, b, verif_ring_capacity(), d)
 #define video_filter_init(a, b, c, d) video_filter_init(a, b, verif_ring_capacity(), d)
+// acquire.c's calls of channel_accept_writes go through the harness, which hides the ones on a filter's queue from the
+// co-simulation: M1 has averaging off, nothing ever writes to filter.in, so whether it accepts writes is outside M1's vocabulary
+void verif_accept_writes(struct channel* ch, int v);
+#define channel_accept_writes(ch, v) verif_accept_writes(ch, v)
 #include "acquire.c"
+#undef channel_accept_writes
 #undef video_sink_init
 #undef video_filter_init
